@@ -1,16 +1,155 @@
+import concurrent.futures
+import hashlib
+import json
+import os
+import re
+
+
 def _post(ctx):
     # the parser engine itself as a Gallina interpreter (DESIGN.md 6.21): translator + correspondence with the
     # root MatchResult of the real parser; wf_safe=True: the side condition of Pem_parse_keeps_every_token
     # (Props/C02.v) is evaluated on every dumped graph (coq/gen/PemWf_<d>.v)
     import cpem
     cpem.pem_stage(ctx, with_cases=True, wf_safe=True)
+    _flag_stage(ctx)
+
+
+FLAG_SHARD = 25
+
+
+def _flag_stage(ctx):
+    """Second sentence of C02 against the reference semantics of the engine (coq/theories/Corr/C02Pem.v): truncated /
+    token-deleted / element-deleted / grammar-cut statements are parsed by the real parser (`sqv c02 --flag-cases`), the
+    recorded root match is compared with what the Gallina interpreter of the engine answers over the dialect's freshly
+    dumped grammar. verdict 2 (a code token the interpreter puts under an unparsable node is outside every unparsable
+    node of the implementation's tree, no parse error) is a concrete failing input; verdict 1 (any other difference) a
+    broken correspondence."""
+    import cpem
+    import vlib
+    R = ctx["R"]
+    tier, seed = ctx["tier"], ctx["seed"]
+    extra = []
+    if ctx.get("replay"):
+        payload = json.load(open(ctx["replay"]))
+        d = payload.get("detail", payload)
+        d = d.get("sample", d)
+        d = d.get("input", d)
+        if d.get("via") != "interpreter":
+            return
+        dialects = [d.get("dialect", "ansi")]
+        gr = cpem.dump_grammars(ctx["bin"], dialects)
+        if not gr[dialects[0]][0]:
+            R.violation("translator-obligation", dict(what="grammar dump of %s does not compile" % dialects[0], log=gr[dialects[0]][1]), False)
+            return
+        inp = os.path.join(vlib.CACHE, "runs", "C02F-replay-%d.json" % os.getpid())
+        json.dump(d, open(inp, "w"))
+        extra = ["--replay-input", inp]
+    else:
+        cov = ctx.get("extra_coverage", {})
+        dialects = [g["dialect"] for g in cov.get("pem_graphs", [])
+                    if os.path.exists(os.path.join(vlib.GEN, "PemGrammar_%s.vo" % g["dialect"]))]
+        dialects = [d for d in cov.get("pem_dialects", []) if d in dialects]
+    if not dialects:
+        return
+    if any(r.get("t") == "direct_fail" and str(r.get("key", "")).startswith("c02-no-termination") for r in ctx.get("recs", [])):
+        # the parser does not return on some inputs (already reported as failing inputs): `--flag-cases` parses the same
+        # statements without a watchdog
+        vlib.log("C02 interpreter verdicts: skipped, the main run found parses that do not return")
+        ctx.setdefault("extra_coverage", {}).update(interpreter_verdict_cases=0, interpreter_verdict_skipped="the main run found parses that do not return")
+        return
+    import time
+    t0 = time.time()
+    outp = os.path.join(vlib.CACHE, "runs", "C02F-%d.jsonl" % os.getpid())
+    os.makedirs(os.path.dirname(outp), exist_ok=True)
+    rc, out = vlib.harness_run(ctx["bin"], "c02", tier, seed, outp, ["--flag-cases", "--dialects", ",".join(dialects)] + extra,
+                               timeout=900 if tier == "quick" else 3600)
+    recs = vlib.read_jsonl(outp) if os.path.exists(outp) else []
+    cases = [r for r in recs if r.get("t") == "case"]
+    if rc != 0 or not cases:
+        R.violation("broken-correspondence", dict(what="sqv c02 --flag-cases produced no cases", rc=rc, log=out[-1500:]), False)
+        return
+    for f in os.listdir(vlib.GEN):
+        if f.startswith("Cases_C02F_"):
+            os.remove(os.path.join(vlib.GEN, f))
+    by_d = {}
+    for c in cases:
+        by_d.setdefault(c["group"][len("pem_"):], []).append(c)
+    jobs = []
+    for d, cs in sorted(by_d.items()):
+        for k in range(0, len(cs), FLAG_SHARD):
+            name = "Cases_C02F_%s_%d.v" % (d, k // FLAG_SHARD)
+            body = ["From Sq Require Import Base.Corr Corr.Pem Corr.C02Pem.", "From SqGen Require Import PemGrammar_%s." % d,
+                    "Open Scope N_scope.", "Definition cases : list case_t := [",
+                    ";\n".join("(%d, %s, %s)" % (c["id"], c["args"], c["exp"]) for c in cs[k:k + FLAG_SHARD]), "].",
+                    "Eval vm_compute in verdicts g cases."]
+            open(os.path.join(vlib.GEN, name), "w").write("\n".join(body) + "\n")
+            jobs.append(name)
+    verdicts, errors = {}, []
+    with concurrent.futures.ThreadPoolExecutor(max_workers=16) as ex:
+        futs = {ex.submit(vlib.run_coqc, os.path.join("gen", name), 1500): name for name in jobs}
+        for fut in concurrent.futures.as_completed(futs):
+            rc, out = fut.result()
+            blocks = vlib.parse_N_list(out)
+            if rc != 0 or len(blocks) != 1 or len(blocks[0]) % 2:
+                errors.append("%s: rc=%d %s" % (futs[fut], rc, out[-1500:]))
+            else:
+                verdicts.update(zip(blocks[0][0::2], blocks[0][1::2]))
+    for f in os.listdir(vlib.GEN):
+        if f.startswith("Cases_C02F_") and not f.endswith(".v"):
+            os.remove(os.path.join(vlib.GEN, f))
+    vlib.log("C02 interpreter verdicts: %d cases, %d shards, %.0f s" % (len(cases), len(jobs), time.time() - t0))
+    for e in errors:
+        R.violation("broken-correspondence", dict(what="the verdict of the engine interpreter did not evaluate", log=e[-1500:]), False)
+    by_id = {c["id"]: c for c in cases}
+    shown = 0
+    # smallest inputs first
+    silent = sorted((i for i, v in verdicts.items() if v == 2), key=lambda i: (len(by_id[i]["sample"]["input"]["sql"]), i))
+    other = sorted((i for i, v in verdicts.items() if v != 2), key=lambda i: (len(by_id[i]["sample"]["input"]["sql"]), i))
+    for i in silent[:40]:
+        c = by_id[i]
+        inp = dict(c["sample"]["input"], via="interpreter")
+        d = inp["dialect"]
+        key = "c02-unflagged-vs-interpreter:%s:%s" % (d, hashlib.sha1(inp["sql"].encode()).hexdigest()[:12])
+        detail = dict(key=key, cls=c["cls"], input=inp,
+                      msg="the root match of Parser::parse keeps code tokens outside every unparsable node, without a parse error, that the "
+                          "reference semantics of the engine (Gallina interpreter over the dumped %s grammar) puts under an unparsable node: "
+                          "text the grammar cannot match is accepted silently" % d)
+        if shown < 3:
+            shown += 1
+            name = "Cases_C02F_show.v"
+            body = ["From Sq Require Import Base.Corr Corr.Pem Corr.C02Pem.", "From SqGen Require Import PemGrammar_%s." % d, "Open Scope N_scope.",
+                    "Set Printing Width 200.", "Set Printing Depth 100000.", "Eval vm_compute in show_with g %s %s." % (c["args"], c["exp"])]
+            open(os.path.join(vlib.GEN, name), "w").write("\n".join(body) + "\n")
+            rc, out = vlib.run_coqc(os.path.join("gen", name), 300)
+            detail["interpreter_root_match_and_token_indices_it_flags_but_the_parser_does_not"] = re.sub(r"\s+", " ", out[-1800:])
+            detail["parser_root_match"] = c["exp"][:1500]
+        if key in R.known:
+            R.known_hits[key] = R.known[key]
+        else:
+            R.violation("failing-input", detail, True)
+    for i in other[:20]:
+        c = by_id[i]
+        R.violation("broken-correspondence", dict(correspondence="Corr.C02Pem.verdict_with (Gallina parser-engine interpreter vs the real root MatchResult, verdict %d)" % verdicts[i],
+                                                  cls=c["cls"], sample=dict(c["sample"], input=dict(c["sample"]["input"], via="interpreter"))), False)
+    hist = {}
+    for c in cases:
+        hist[c["cls"]] = hist.get(c["cls"], 0) + 1
+    ctx["extra_evaluations"] = ctx.get("extra_evaluations", 0) + len(cases)
+    ctx.setdefault("extra_coverage", {}).update(
+        interpreter_verdict_cases=len(cases), interpreter_verdict_classes=hist, interpreter_verdict_dialects=sorted(by_d),
+        interpreter_verdict_silently_kept=len(silent), interpreter_verdict_other_mismatches=len(other), interpreter_verdict_shards=len(jobs),
+        interpreter_verdict_counts=[r.get("v") for r in recs if r.get("t") == "counts"])
+    try:
+        os.remove(outp)
+    except OSError:
+        pass
 
 
 CFG = dict(
     post=_post,
     prop="C02", level="proof", harness="c02",
     props_files=["theories/Props/C02.v", "theories/Props/Pem.v"], corr_file="theories/Corr/C02.v", corr_module="Corr.C02",
-    extra_targets=["theories/Corr/Pem.vo", "theories/Pem/WfRoot.vo", "theories/Pem/NoPanicMon.vo"],   # imported by the generated coq/gen/PemGrammar_<d>.v of the Pem stage (absent in a fresh clone / after make clean)
+    extra_targets=["theories/Corr/Pem.vo", "theories/Pem/WfRoot.vo", "theories/Pem/NoPanicMon.vo", "theories/Corr/C02Pem.vo"],   # imported by the generated coq/gen/PemGrammar_<d>.v of the Pem stage (absent in a fresh clone / after make clean)
     groups={"root": False, "append": False, "wrap": False},
     show_fn={"root": "model_root", "append": "model_append", "wrap": "model_wrap"},
     shard=120,
@@ -19,7 +158,11 @@ CFG = dict(
               "token; append/wrap preserve well-formedness) + correspondence of the Gallina root_parse/apply/append/wrap with "
               "the real parser on recorded (tokens, root MatchResult) + direct observation leaves(tree) == lexer tokens "
               "+ direct observation of the second sentence: every code leaf outside the unparsable nodes that still has its lexer kind is "
-              "accepted under that kind by some terminal parser of the dialect (terminals re-tag what they match), else it was kept silently",
+              "accepted under that kind by some terminal parser of the dialect (terminals re-tag what they match), else it was kept silently "
+              "+ the same sentence judged by the reference semantics of the engine: on truncated / token-deleted / element-deleted / grammar-cut / junk-at-a-gap statements "
+              "the root match of the real parser is compared with the Gallina interpreter's over the freshly dumped grammar (Corr/C02Pem.v); a code token the "
+              "interpreter puts under an unparsable node but the parser keeps outside every unparsable node is a failing input "
+              "+ every input under a CPU-time watchdog (a parse that does not return is a failing input) + templated token streams (placeholder templater)",
     level_text="Pem (DESIGN 6.21): the combinator engine is also modelled, as a Gallina interpreter over the dumped grammar graphs, validated on every run against the root MatchResult of the real parser (4 dialects quick / 13 thorough). "
                "Pem_match_node_wf proves, for every grammar graph that satisfies the decidable side condition wf_safe_b (whatever can close a bracket - in a Bracketed node or in the dialect's bracket set - is a one-code-token String/MultiString parser behind Refs), "
                "every token map, regex oracle, fuel, node, start index and terminator context, that every successful match of the interpreter is well-formed (Apply.Model.wf: children nested, non-overlapping, inserts inside the span and outside the children, named nodes non-empty, Newtype over one token); "
@@ -39,11 +182,19 @@ CFG = dict(
          "gap-junk: one junk token (a token no terminal of the dialect accepts - unlexable characters, foreign operators - or an ordinary one) "
          "inserted after every opening bracket / before every closing bracket / after every ';' / at random gaps of every corpus file <= 1500 chars "
          "(thorough: every gap) and at every gap of 16 greedy-site statements (IN lists, VALUES, USING, OVER, array literals, scripting blocks) "
-         "under every dialect). Each input is lexed by the dialect lexer "
+         "under every dialect), "
+         "truncation / token-deleted / element-deleted: every prefix at a token boundary, every single code token removed, runs of sibling elements of the parse tree removed, "
+         "of 34 small statements under every dialect and of a third of the corpus files <= 1500 chars (thorough: all), "
+         "templated-span: a run of 2..14 tokens of those statements / of corpus files becomes the value of a placeholder (7 parameter styles; two runs in three hold a repeated code token), "
+         "templated-literals / templated-shapes: C04's placeholder generators; a templated source is rendered by the placeholder templater and its TemplatedFile lexed by the dialect lexer. "
+         "interpreter verdict (4 dialects quick / 13 thorough): ~135 cut statements + 30 junk-at-a-gap + 30 grammar-derived cut sentences (c03g) per dialect, each <= 160 chars. "
+         "Each input is lexed by the dialect lexer "
          "and parsed by Parser::parse; the recorded root MatchResult and token array are replayed through the Gallina root_parse and the "
          "resulting tree compared with the real tree; append/wrap are replayed on sibling sub-matches. "
          "non-trivial = the recorded match has >= 3 nodes; distinct = distinct (tokens, match, tree) terms",
     assumptions=["H_WF_root_match: every MatchResult returned by the root grammar is well-formed (Apply.Model.wf_root) - proved for the interpreter of the engine on every graph with wf_safe_b (Pem_parse_root_wf_root; wf_safe_b evaluated on every dumped dialect graph), and monitored on every real parse, blocking",
                  "token ids produced by the lexer are pairwise distinct and tokens are leaves (monitored, blocking)",
-                 "the tree is compared with the tokens the lexer produced, not with the raw input (lexer losslessness is C01)"],
+                 "the tree is compared with the tokens the lexer produced, not with the raw input (lexer losslessness is C01)",
+                 "what 'the grammar cannot match' means on the cut statements is what the Gallina interpreter of the engine (Pem/Model.v, validated against the real root match on every run) answers over the dumped grammar",
+                 "a parse that uses more than 10 s of CPU time (+10 s per 5000 characters; the slowest input of a run needs ~0.15 s) is counted as not returning"],
 )
